@@ -324,8 +324,11 @@ def main(argv=None):
     if ev["coverage"]["distinct_nontrivial"] < 2 or cases < 1:
         # keep the file schema-valid but make the emptiness explicit
         ev["coverage"]["note"] = "too few cases: run is inconclusive"
-    os.makedirs(os.path.join(VERIF, "evidence"), exist_ok=True)
-    with open(os.path.join(VERIF, "evidence", f"{prop}.json"), "w") as f:
+    # evidence/ holds what was observed on /repo itself; runs against a scratch tree (VERIF_REPO, used for
+    # seeded changes and mutants) are kept apart so that they can never be mistaken for it
+    evdir = os.path.join(VERIF, "evidence") if repo == os.path.realpath("/repo") else os.path.join(VERIF, ".scratch", "evidence")
+    os.makedirs(evdir, exist_ok=True)
+    with open(os.path.join(evdir, f"{prop}.json"), "w") as f:
         json.dump(ev, f, indent=1, default=str)
 
     print(
